@@ -265,10 +265,10 @@ func genReal(seed int64, idx int, profile string, poll int) scen.E2E {
 		cfg.SrvNoCopy = true
 	}
 	if rng.Intn(3) == 0 {
-		cfg.SrvBuf = []int{64, 512, 4096, 65536, 262144}[rng.Intn(5)]
+		cfg.SrvBuf = []int{64, 512, 4096, 65536, 262144, 3000, 100, 70000}[rng.Intn(8)]
 	}
 	if rng.Intn(3) == 0 {
-		cfg.CliBuf = []int{64, 512, 4096, 65536, 262144}[rng.Intn(5)]
+		cfg.CliBuf = []int{64, 512, 4096, 65536, 262144, 3000, 100, 70000}[rng.Intn(8)]
 	}
 	p.Conns = 1 + rng.Intn(4)
 	p.Callers = 1 + rng.Intn(8)
